@@ -53,7 +53,7 @@ def polygons(draw, nmin=3, nmax=6):
     verts = []
     for i in range(n):
         a = 2 * np.pi * (i + phase + jit[i] * (0.8 if n > 3 else 0.4)) / n
-        verts.append([round(cx + rad[i] * np.cos(a), 6), round(cy + rad[i] * np.sin(a), 6)])
+        verts.append([round(float(cx + rad[i] * np.cos(a)), 6), round(float(cy + rad[i] * np.sin(a)), 6)])
     return verts
 
 
